@@ -681,8 +681,14 @@ def model_correspondence(ctx):
             try:
                 dd = DeepDiff(t1, t2, **kw)
                 a = DF.impl_answer(dd, vb)
-            except OutOfUniverse:
-                ctx.count('corr_out_of_universe'); continue
+            except OutOfUniverse as e:
+                try:
+                    diffo_line(t1, t2, zip_, thr, vb, case, strtype, numtype, sig, eps, ex_types)
+                    if ctx.build_ok:        # the inputs are inside the universe, a reported value is not: no model answer equals it
+                        ctx.diverge(case_d, 'a reported value outside the universe of the inputs: %s' % str(e)[:120], '(every value of a model result is a part of an input)', op='DIFFO')
+                except (OutOfUniverse, KeyError):
+                    ctx.count('corr_out_of_universe')
+                continue
             except DF.BadDiffText as e:
                 ctx.count('corr_out_of_universe:text'); continue
             except Exception as e:
